@@ -49,13 +49,44 @@ def gen(run):
             ents[nm] = (kind, off())
         if rng.random() < 0.3:   # the file currently being written: own name, fresh mtime
             ents[fn + b'.' + ts()] = (0, rng.choice([0, -1, -1800]))
-        cases.append('%s %d %s' % (hx(fn), age, ' '.join('%s:%d:%d' % (hx(k), v[0], v[1]) for k, v in ents.items())))
+        toks = ['%s:%d:%d' % (hx(k), v[0], v[1]) for k, v in ents.items()]
+        # histories: further passes of the same appender, entries written / touched / created in between (same clock: no wait)
+        if rng.random() < 0.35:
+            for _ in range(rng.randint(1, 3)):
+                toks.append('|0')
+                for k, v in list(ents.items()):
+                    if v[0] == 0 and rng.random() < 0.5:      # a regular file written to again / re-timed (restored from a backup, touched)
+                        ents[k] = (0, off())
+                        toks.append('%s:0:%d' % (hx(k), ents[k][1]))
+                for _ in range(rng.randint(0, 3)):
+                    nm = fn + b'.' + ts()
+                    if nm not in ents:
+                        ents[nm] = (0, off())
+                        toks.append('%s:0:%d' % (hx(nm), ents[nm][1]))
+        cases.append('%s %d %s' % (hx(fn), age, ' '.join(toks)))
+    # histories with real waits: files whose age crosses the cut-off between two passes (3 s margins on both sides)
+    for i in range(4 if run.tier == 'quick' else 40):
+        fn = rng.choice(names)
+        age = rng.choice([1, 2, 24, 720])
+        cut = -age * 3600
+        nm = [fn + b'.' + ('2024010100%04d' % (10 * i + j)).encode() for j in range(6)]
+        wait = 6
+        t = ['%s:0:%d' % (hx(nm[0]), cut + 3),       # young at the first pass, touched before the second: stays
+             '%s:0:%d' % (hx(nm[1]), cut + 3),       # young at the first pass, expired by the second: goes at the second
+             '%s:0:%d' % (hx(nm[2]), cut - 3),       # expired at the first pass, written again afterwards: the new file stays
+             '%s:0:%d' % (hx(nm[3]), -10),           # fresh at the first pass, re-timed far into the past: goes at the second
+             '%s:0:%d' % (hx(nm[4]), cut + wait + 3),  # young at both passes
+             '%s:0:%d' % (hx(fn + b'.wf.' + nm[0][-14:]), cut - 3),   # a sibling's file
+             '|%d' % wait,
+             '%s:0:%d' % (hx(nm[0]), 1), '%s:0:%d' % (hx(nm[2]), 2), '%s:0:%d' % (hx(nm[3]), cut - 1000), '%s:0:%d' % (hx(nm[5]), cut + wait - 3)]
+        cases.append('%s %d %s' % (hx(fn), age, ' '.join(t)))
     return cases
 
 
 def nontrivial(case, obs):
     f = case.split()
-    return len(obs.split()) < len(f) - 2 and len(obs.split()) > 0   # something deleted, something kept
+    names = {t.split(':')[0] for t in f[2:] if not t.startswith('|')}
+    return len(obs.split()) < len(names) and len(obs.split()) > 0   # something deleted, something kept
 
 
 def check(run):
@@ -74,11 +105,11 @@ def check(run):
             return 'harness error'
         mo, io = common.read_lines_keep(tmp + '/m'), common.read_lines_keep(tmp + '/i')
         common.compare_stage(run, 'c14/survivors', cases, mo, io, nontrivial_fn=nontrivial,
-                             rule='directory populations (own / sibling / prefix-sharing / unrelated names, files, dirs, symlinks, mtimes on both sides of the cut-off, maxAge 1..720); observable = sorted survivors; non-trivial = at least one entry deleted and one kept')
+                             rule='directory populations (own / sibling / prefix-sharing / unrelated names, files, dirs, symlinks, mtimes on both sides of the cut-off, maxAge 1..720); a third of the cases are histories of 2-4 passes of ONE appender with files re-timed / written again / created between the passes, some with real waits so that the age of a file crosses the cut-off between two passes; observable = sorted survivors; non-trivial = at least one entry deleted and one kept')
         ages = {}
         for c in cases:
             a = int(c.split()[1]); ages[a] = ages.get(a, 0) + 1
-        run.coverage['distribution'] = {'max_age_ge_597': sum(v for k, v in ages.items() if k >= 597), 'cases': len(cases)}
+        run.coverage['distribution'] = {'max_age_ge_597': sum(v for k, v in ages.items() if k >= 597), 'cases': len(cases), 'multi_pass_histories': sum(1 for c in cases if '|' in c), 'histories_with_waits': sum(1 for c in cases if '|6' in c)}
     finally:
         shutil.rmtree(tmp, ignore_errors=True)
     return 'generated directory populations run through the real clearExpiredFiles (hook VerifClearExpired) and the verified model; see streams'
